@@ -91,7 +91,10 @@ def run_property(mod, tier, seed, only=None):
             funcs.update(functions_entered(h, cfg))
         except BaseException as e:  # profiling is best effort
             pass
-        st, exhausted = explore(h, cfg, workers=sp.get('workers'), deadline_s=sp.get('deadline_s'),
+        dl = sp.get('deadline_s', 1500 if tier == 'thorough' else None)
+        if os.environ.get('SYMX_DEADLINE_S'):
+            dl = int(os.environ['SYMX_DEADLINE_S'])
+        st, exhausted = explore(h, cfg, workers=sp.get('workers'), deadline_s=dl,
                                 unit_paths=sp.get('unit_paths', 150), opts=sp.get('opts'))
         wall = time.time() - t0
         if st.errors:
